@@ -927,7 +927,10 @@ func (e *Enc) substr(x, lo, hi Term) Term {
 }
 
 func (e *Enc) strConcat(x, y Term) Term {
-	r := e.fresh("concat", "Str")
+	// a function application, so that concatenations of equal operands are equal by congruence; the two defining
+	// facts are stated per term
+	e.declareFun("str-cat", []string{"Str", "Str"}, "Str")
+	r := e.define("concat", "Str", sx("str-cat", x, y))
 	e.assumeG(tEq(sx("str-len", r), tAdd(sx("str-len", x), sx("str-len", y))))
 	e.assumeG(fmt.Sprintf("(forall ((i!s Int)) (! (= (select (str-data %s) i!s) (ite (< i!s (str-len %s)) (select (str-data %s) i!s) (select (str-data %s) (- i!s (str-len %s))))) :pattern ((select (str-data %s) i!s))))", r, x, x, y, x, r))
 	return r
